@@ -44,6 +44,13 @@ def gen_tasks(tier, seed, kind="lae"):
             if inner:
                 v, w = rng.choice(inner), rng.choice(inner)
                 tasks.append({**base, "edges": arb, "starts": [v], "ends": [w], "kwargs": {"k": kk, "weight_type": "int", "additional_starts": [v], "additional_ends": [w]}})
+            # fractional error scale on an edge that the optimum over-shoots / under-shoots: every edge in turn (not sampled),
+            # that edge light (4) or heavy (10) against the rest, k = 1
+            if rep == 0 and len(es) <= 6:
+                for ex in es:
+                    for lo, hi in ((4, 10), (10, 4)):
+                        sw_ = [(u, v, lo if (u, v) == ex else hi) for (u, v) in es]
+                        tasks.append({**base, "edges": sw_, "scaling": [[list(ex), 0.5]], "kwargs": {"k": 1, "weight_type": "int", "error_scaling": [[list(ex), 0.5]]}})
             tasks.append({**base, "edges": arb, "allow_empty": True, "kwargs": {"k": kk + 1, "weight_type": "int", "optimization_options": {"allow_empty_paths": True}}})
             # given weights (each usable once, at most k of them)
             tasks.append({**base, "edges": arb, "allow_empty": True, "superset": [1, 2, 2], "kwargs": {"k": kk, "weight_type": "int", "solution_weights_superset": [1, 2, 2]}})
